@@ -337,6 +337,9 @@ class Trimesh(Geometry3D):
             values = np.zeros(shape=(0, 3), dtype=int64)
         else:
             values = np.asanyarray(values, dtype=int64)
+            if values.size == 0 and values.shape != (0, 3):
+                # an empty list of faces is still an (0, 3) array
+                values = values.reshape((0, 3))
 
         # automatically triangulate quad faces
         if len(values.shape) == 2 and values.shape[1] != 3:
@@ -482,7 +485,11 @@ class Trimesh(Geometry3D):
         if values is None:
             # remove any stored data and store an empty array
             values = np.zeros(shape=(0, 3), dtype=float64)
-        self._data["vertices"] = np.asanyarray(values, order="C", dtype=float64)
+        values = np.asanyarray(values, order="C", dtype=float64)
+        if values.size == 0 and values.shape != (0, 3):
+            # an empty list of vertices is still an (0, 3) array
+            values = values.reshape((0, 3))
+        self._data["vertices"] = values
 
     @cache_decorator
     def vertex_normals(self) -> NDArray[float64]:
